@@ -9,7 +9,7 @@ EXTENDS Naturals, Sequences, FiniteSets, TLC, Json, SequencesExt
 
 Idents   == {"A", "VAR_TEMP_1", "nE", "_x9"}
 Numbers  == {"0", "7", "100", "0x1f", "0xFF", "0x0203abcd", "-5", "-0"}
-Ops      == {"+", "*", "==", "!=", "<", "<=", ">", ">=", "!", "&&", "||", "|", "=", "-", "/"}
+Ops      == {"+", "*", "==", "!=", "<", "<=", ">", ">=", "!", "&&", "||", "|", "=", "-", "/", "%", "&", "^", "~", "[", "]", "@", "."}
 Keywords == {"var", "flag", "defeated", "true", "FALSE", "local", "global", "value", "if", "else", "while",
              "end", "case", "default", "switch", "script", "const", "raw"}
 Tok == Idents \cup Numbers \cup Ops \cup Keywords
